@@ -7,7 +7,7 @@
 (*              "disk" = the one registered under the file's path, "old" = the renamed copy of a   *)
 (*              file that has been read again under the same path),                                *)
 (*        P0   the project on disk (a renamed file is read again when the scheduler rediscovers), *)
-(*        C    configuration (seeds, roles; no pruning lists),                                    *)
+(*        C    configuration (seeds, roles; no pruning lists), C0 the configuration at the start,  *)
 (*        wrapped  set of <<module, routine>>: modules created by module wrapping]               *)
 (* The graph is not part of the state: after every operation the scheduler rebuilds it from the  *)
 (* seeds, Graph(S) == PrunedClosure(S.P, S.C).                                                    *)
@@ -33,7 +33,7 @@ ProcNodes(G) == {n \in G.nodes : n.kind = "proc"}
 RoleOf(S, it) == ItemConf(S.C, it).role
 InitState(P, C) ==
   LET P1 == [mods |-> MapS(P.mods, LAMBDA m : m @@ [src |-> "disk"]), procs |-> MapS(P.procs, LAMBDA r : r @@ [src |-> "disk"])]
-  IN [P |-> P1, P0 |-> P1, C |-> C, wrapped |-> {}]
+  IN [P |-> P1, P0 |-> P1, C |-> C, C0 |-> C, wrapped |-> {}]
 
 \* the item a written call name denotes in the current project
 Callee(S, pr, c) == Resolve(S.P, pr, c)
@@ -160,8 +160,9 @@ Dep(S, G, sfx, msfx) ==
       \* (a unit whose name is still known -- not renamed, e.g. a driver in a module with kernels -- is not read again)
       remProcs == Range(MapS(keptProcs, procOf))
       remMods == Range(MapS(S.P.mods, modOf))
-      backProcs == {pr \in Procs(S.P0) : pr.file \in refiles /\ ~\E r \in remProcs : r.name = pr.name /\ r.mod = pr.mod}
       backMods == {m \in Mods(S.P0) : m.file \in refiles /\ ~\E r \in remMods : r.name = m.name}
+      backProcs == {pr \in Procs(S.P0) : /\ pr.file \in refiles /\ ~\E r \in remProcs : r.name = pr.name /\ r.mod = pr.mod
+                                         /\ (pr.mod = "" \/ \E m \in backMods : m.name = pr.mod)}
       newFull(it) == IF it.kind = "mod" THEN newMod(it.local)
                      ELSE newMod(it.scope) \o "#" \o (IF it \in K THEN it.local \o sfx ELSE it.local)
       renamed == {n \in PN : newFull(n) # Full(n)}
@@ -212,5 +213,22 @@ NoOutputClash(P, nodes) ==
   \A a, b \in {n \in nodes : n.kind = "proc"} :
      FileOf(P, a) = FileOf(P, b) => ProcRecOf(P, a).src = ProcRecOf(P, b).src
 
+\* The closure of SchedProject is only defined when every reference met on the way resolves; Reachable tells whether it
+\* does (ok) without evaluating an unresolved reference.
+NodeLegal(P, n) ==
+  /\ n \in AllItems(P)
+  /\ IF n.kind = "proc" THEN LET pr == ProcRecOf(P, n)
+                            IN ProcRefsLegal(P, pr) /\ (pr.mod = "" \/ ModRefsLegal(P, ModRec(P, pr.mod)))
+     ELSE ModRefsLegal(P, ModRec(P, n.local))
+RECURSIVE SafeReach(_, _, _, _)
+SafeReach(P, C, seen, frontier) ==
+  IF frontier = {} THEN TRUE
+  ELSE IF \E n \in frontier : ~NodeLegal(P, n) THEN FALSE
+  ELSE LET new == UNION {Children(P, C, n) : n \in frontier} \ seen IN SafeReach(P, C, seen \cup new, new)
+
 SeedsResolve(P, C) == \A i \in DOMAIN C.seeds : Cardinality(SeedCands(P, C.seeds[i])) = 1
+\* the state is consistent enough for the graph to be defined
+Consistent(P, C) ==
+  /\ UniqueUnits(P) /\ SeedsResolve(P, C)
+  /\ LET ss == {SeedItem(P, C.seeds[i]) : i \in DOMAIN C.seeds} IN SafeReach(P, C, ss, ss)
 =============================================================================
